@@ -49,7 +49,11 @@ Inductive rsrc :=
 | RBytes                          (* ReadBytes (reference) resp. readUnsafeBytes *)
 | RTime | RDate | RGuid           (* ReadTime / ReadDateTime / ReadUUID *)
 | RInf                            (* "+Inf" / "-Inf" by the sign byte *)
-| RUint8Slice.                    (* readUint8Slice *)
+| RUint8Slice                     (* readUint8Slice *)
+(* the same reads WITHOUT a private copy (UnsafeUntil, readUnsafeString, ReadUnsafeString, readUnsafeBytes):
+   the result aliases the decoder's read buffer.  Never in the model's tables for a value that outlives
+   the call; recognised so that such an arm in the Go source is a mismatch, not merely unknown. *)
+| RUntilUnsafe | RCharUnsafe | RStringUnsafe | RBytesUnsafe.
 
 (* sub-routines a case arm delegates to *)
 Inductive callee :=
@@ -103,6 +107,12 @@ Inductive reader :=
 | RdConv (k : ikind) (base : bstr)        (* return T(dec.<base>()) *)
 | RdPrimitive                            (* the digit loops: ReadInt64 / ReadUint64 / readUint64 (body recognised verbatim) *)
 | RdParseFloat (bits : N)                (* strconv.ParseFloat(<text up to ';'>, bits), error recorded, result converted to that width *)
+| RdOwn (copy : bool) (prim : bstr)      (* bytes/string taken from dec.<prim>: copy = true when the result is a private copy
+                                            whenever the primitive returned a window of the read buffer, false = alias *)
+| RdGuarded (prim : bstr)                (* a window from dec.<prim>(count) handed to skipAfter: copied when skipping the closing
+                                            quote needs a refill, else still a window (to be used before the next read) *)
+| RdSkipAfter                            (* skipAfter itself, recognised verbatim: copy iff !safe && head == tail && reader != nil; Skip *)
+| RdVia (callee : bstr) (ref : bool)     (* forwards to <callee> (count read, closing quote skipped), ref: appended to the reference list *)
 | RdUnknown (src : bstr).
 
 (* the string parsers behind the 'u' / 's' arms and the converters: which library function, which arguments *)
